@@ -43,9 +43,9 @@ CLAIMS = {
          "Structural part only: URL and copy path both come from source_path_map with the same settings; quote() with default safe set on the same src/href fields the copier reads; copy_to verifies all listed files before rmtree/mkdir/copy; save_html copies every rendered dependency and returns the path. Byte identity and filesystem faults are runtime matters."),
  "C13": ("extracted sanitiser chain applied to the 448-word '</script' language; regex-AST prefix vs derived open tag; Engine A tables for extraction de-duplication and first-occurrence replace; sibling agreement with HTMLDocument", "4/C13",
          "No case variant of '</script' followed by any tokenizer terminator survives the serialiser while JSON-decoding is preserved; writer keys = reader parameters; the extraction pattern matches exactly the rendered open tag lazily to </script>; de-duplication is by membership in all earlier serialisations; the placeholder is replaced once by str.replace with HTMLDocument's listing/markup."),
- "C18": ("nondeterminism-source reachability over the call-graph closure of the construction/render API (hash/id, set iteration, time/random/env, module-level state, memoising decorators) + dataflow of head_content's name + purity of read-only operations", "4/C18",
+ "C18": ("nondeterminism-source reachability over the call-graph closure of the construction/render API (hash/id, set iteration, time/random/env, module-level state, memoising decorators, shared mutable defaults and class attributes) + dataflow of head_content's name + purity of read-only operations", "4/C18",
          "No source of run-to-run or history-dependent variation is reachable from the API; head_content names are prefix + hashlib digest of the rendered payload; read-only operations mutate nothing (history independence). Digest injectivity is an axiom."),
- "C20": ("ownership/effect analysis of JSXTag.tagify with the walker analysed under its visitor closure + Engine A tables (walker coverage, visitor, _serialize_attr dispatch, allow-list order) + asset existence", "4/C20",
+ "C20": ("ownership/effect analysis of JSXTag.tagify with the walker analysed under its visitor closure + Engine A tables (walker coverage, visitor, _serialize_attr dispatch, allow-list order, prop-name normalisation on item assignment and update) + asset existence", "4/C20",
          "Conversion mutates nothing reachable from the component; the walker reaches every child and prop value; every metadata node seen is collected and attached together with react/react-dom; prop values are serialised per kind (lists element-wise, booleans before numbers); disallowed props are rejected before construction; script files exist. JavaScript well-formedness is not decided."),
 }
 checks = []
